@@ -194,7 +194,8 @@ def seeded(sel):
                 print("seeded %-28s STALE: %s" % (sid, p.stdout.strip().splitlines()[-1] if p.stdout.strip() else ""))
                 ok_all = False
                 continue
-            r = _run_check_on(scratch, prop, int(os.environ.get("VERIF_RUNS", RUNS[prop])))
+            # (a change with a low trigger rate may name the number of runs it needs: still at most the quick tier's own size)
+            r = _run_check_on(scratch, prop, int(os.environ.get("VERIF_RUNS", meta.get("selftest_runs", RUNS[prop]))))
         finally:
             shutil.rmtree(scratch, ignore_errors=True)
             _drop_numba_cache_for(scratch)
